@@ -39,6 +39,9 @@ type params struct {
 	K     int    `json:"k,omitempty"`
 	Force bool   `json:"force,omitempty"`
 	Seed  int64  `json:"seed"`
+	// Orphans: that many unreferenced blobs are planted in the blob store before anything else (several listing
+	// pages of 1024 for delete-unused)
+	Orphans int `json:"planted_unreferenced_blobs,omitempty"`
 }
 
 func gen14(seed int64, tier string) []drv.Case {
@@ -117,7 +120,12 @@ func gen14(seed int64, tier string) []drv.Case {
 		if i%3 == 2 {
 			cls = "history-with-resumed-build"
 		}
-		cs = append(cs, drv.Case{ID: fmt.Sprintf("%s-%d", cls, i), Class: cls, Params: drv.MustJSON(params{Mode: "history", Steps: st, Leaf: leaf, Seed: r.Int63()})})
+		pp := params{Mode: "history", Steps: st, Leaf: leaf, Seed: r.Int63()}
+		if i%10 == 4 {
+			pp.Orphans = 1100 + r.Intn(2500)
+			cls += "+thousands-of-blobs"
+		}
+		cs = append(cs, drv.Case{ID: fmt.Sprintf("%s-%d", cls, i), Class: cls, Params: drv.MustJSON(pp)})
 	}
 	nl := 12
 	if tier == "thorough" {
@@ -222,6 +230,9 @@ func run14(c drv.Case, res *drv.Result) {
 	must(main.CreateRepo(nil, "r1"))
 	must(main.CreateRepo(nil, "r2"))
 	must(cx.x.CreateRepo(nil, "r3"))
+	for j := 0; j < p.Orphans; j++ {
+		main.Blob.RawPut(fmt.Sprintf("%x", gen.Bytes(p.Seed, fmt.Sprint("orphan", j), 64)), []byte{byte(j)})
+	}
 	content := func(label string) []byte {
 		var k int
 		fmt.Sscanf(label, "c%d", &k)
